@@ -48,6 +48,6 @@ Definition ends_in_op (r : rstate) (d : Z) (L : list N) (after : option cclass) 
   exists a op t, L = a ++ op :: t /\
     rrun r d a (Some (classify op)) = (RCode, 0) /\
     is_cont_op (classify op) = true /\
-    rstep RCode (classify op) (peek (t ++ match after with Some _ => [0%N] | None => [] end)) = RCode /\
+    rstep RCode (classify op) (match t with [] => after | _ :: _ => peek t end) = RCode /\
     (is_plusminus (classify op) = true -> match rev a with [] => True | b :: _ => is_plusminus (classify b) = false end) /\
     quiet RCode t after = true.
